@@ -48,6 +48,8 @@ EXPECT = {
     "seed-C02-p": ["C02"], "seed-C03-p": ["C03"], "seed-C05-p": ["C05"], "seed-C06-p": ["C06"], "seed-C09-p": ["C09"], "seed-C10-p": ["C10"],
     "seed-C12-p": ["C12", "C05", "C11"], "seed-C13-p": ["C13"], "seed-C14-p": ["C14", "C13"], "seed-C15-p": ["C15"], "seed-C16-p": ["C16"], "seed-C17-p": ["C17"],
     "seed-C18-p": ["C18", "C19"], "seed-C19-p": ["C19"],
+    "seed-C01-q": ["C01"], "seed-C04-q": ["C04", "C05"], "seed-C07-q": ["C07"], "seed-C08-q": ["C08"], "seed-C09-q": ["C09"], "seed-C10-q": ["C07"],
+    "seed-C11-q": ["C11"], "seed-C13-q": ["C13"], "seed-C14-q": ["C14"], "seed-C17-q": ["C17"], "seed-C18-q": ["C18"], "seed-C19-q": ["C19"],
     "seed-C07-o": ["C07"], "seed-C08-o": ["C08"], "seed-C10-o": ["C10"], "seed-C11-o": ["C11"], "seed-C13-o": ["C13"], "seed-C16-o": ["C16"], "seed-C19-o": ["C19"],
 }
 
